@@ -395,6 +395,12 @@ func TestPropConst(t *testing.T) {
 			ev.Class("skipped:unspecified")
 			return
 		}
+		if c.PRun != "" && wref.LastConstRoundTies > 0 && ev.Excluded("spv.round.tie") {
+			// open finding C01-10: run-time round() is GLSL.std.450 Round, undefined at exact ties;
+			// the constant program is still judged, the run-time twin is not built
+			c.PRun = ""
+			ev.Class("runtime-twin-dropped:round-tie")
+		}
 		if c.Class == "must-reject" && strings.Contains(c.Why, "not representable") && ev.Excluded("const.unrepresentable") {
 			return
 		}
